@@ -46,12 +46,15 @@ func NewClientIO(
 		lastExecutedSeqNum: make(map[uint32]uint64),
 	}
 	clientpb.RegisterClientServer(srv.srv, srv)
+	// committed batches must be executed whatever happens to the event queue, which is bounded and
+	// drops its oldest entries when full (a replica that catches up commits many blocks at once):
+	// the handlers run when the committer adds the event, not when the event is taken off the queue.
 	eventloop.Register(el, func(event clientpb.ExecuteEvent) {
 		srv.Exec(event.Batch)
-	})
+	}, eventloop.UnsafeRunInAddEvent())
 	eventloop.Register(el, func(event clientpb.AbortEvent) {
 		srv.Abort(event.Batch)
-	})
+	}, eventloop.UnsafeRunInAddEvent())
 	return srv
 }
 
